@@ -144,7 +144,11 @@ def poly_spec(labels, form, spin, quad=False, tiny=False, boolexpr=False, min_te
         "name": st.just(None) if plain else st.sampled_from([None, None, "nm", 3, ("t", 1), 0, "", 0.0, ()]),
         "cons": st.lists(_con(labels), min_size=0, max_size=max_cons) if form in PC and not plain else st.just([]),
         "perm": st.just(None) if (plain or form == "dict" or gen.is_matrix(form)) else _perm(),
-        "stale": (st.one_of(st.none(), st.none(), st.sampled_from(labels).map(lambda l: (l,)))
+        # a term that is added and cancelled again: a single label (a stale variable if it is new) or, for the
+        # non-quadratic types, a key over the first labels of higher degree than anything else in the model (a stale
+        # *degree*: the recorded degree then exceeds the true one)
+        "stale": (st.one_of(st.none(), st.none(), st.sampled_from(labels).map(lambda l: (l,)),
+                            st.just(tuple(labels[:4])) if (not q and len(labels) >= 4) else st.sampled_from(labels).map(lambda l: (l,)))
                   if stale and form != "dict" else st.none()),
     })
 
@@ -1065,7 +1069,8 @@ def entry_cases(name):
                 "entry": st.just(name),
                 "labels": st.just(labels),
                 "polys": st.tuples(*[poly_spec(labels, f, s.spin, quad=s.quad, tiny=s.tiny, boolexpr=s.boolexpr,
-                                               min_terms=s.min_terms, max_cons=s.max_cons, plain=s.plain, varterm=s.varterm)
+                                               min_terms=s.min_terms, max_cons=s.max_cons, plain=s.plain, varterm=s.varterm,
+                                               stale=not (s.plain or s.boolexpr or s.tiny))
                                      for f, s in zip(fs, slots)]).map(list),
                 "x": st.fixed_dictionaries({
                     "lam": st.sampled_from([0, 0.5, 1, 2]),
